@@ -499,7 +499,7 @@ def stepRelease (s : St) (role pt : String) : M St := do
   if role.startsWith "T" || role.startsWith "I" then pure s
   else pure (setThread s { getThread s role with inFlight := true })
 
-def stepY (s : St) (role pt : String) (job : Option Nat) (obs : Snap) (now : Nat) : M St := do
+def stepY (s : St) (role pt : String) (job : Option Nat) (obs : Snap) (now : Nat) (compare : Bool := true) : M St := do
   if role.startsWith "T" || role.startsWith "I" then stepJobThread s role pt job
   else
     let t := getThread s role
@@ -511,7 +511,7 @@ def stepY (s : St) (role pt : String) (job : Option Nat) (obs : Snap) (now : Nat
         { t2 with bg := role.startsWith "L" || (t2.call.head? == some "startfg") }
       else t2
     let s3 := setThread s2 { t3 with pc := pt, ptJob := job, lastTime := now, inFlight := false }
-    if isControlled role then
+    if isControlled role && compare then
       let m := snapOf s3
       -- A loop goroutine released from run.exit that found stopLock held (by a Stop/StopNoWait parked inside the
       -- lock) stores running = false only after that thread has been released too: from then on both run, and a
